@@ -202,7 +202,7 @@ def agl_model(name, agl):
 
 
 @bounded("glyph-names-vs-AGL-model", props=["C06"],
-         bound="quick: 6000 names from the grammar (AGL list names, uniXXXX sequences, uXXXX..uXXXXXX, up to 3 underscore-joined components, dot suffixes, near-misses); thorough: 200000")
+         bound="quick: 6000 names from the grammar (AGL list names, uniXXXX sequences, uXXXX..uXXXXXX, up to 3 underscore-joined components, dot suffixes at the end and in the middle (before a later underscore), near-misses); thorough: 200000")
 def _(tier, seed):
     import random
     rng = random.Random(seed + 6)
@@ -224,9 +224,17 @@ def _(tier, seed):
             return rng.choice(["uni" + hx(3), "uniD800", "u" + hx(3), "u" + hx(7), "uDFFF", "foo", "Aacutee", "uni", "u", "u110000", "uni004"])
         return rng.choice(names) + rng.choice(["", "x"])
     for _ in range(n):
-        name = "_".join(comp() for _k in range(rng.choice([1, 1, 1, 2, 3])))
-        if rng.random() < 0.3:
-            name += "." + rng.choice(["alt", "sc", "001", "a.b"])
+        parts = [comp() for _k in range(rng.choice([1, 1, 1, 2, 3]))]
+        r_ = rng.random()
+        if r_ < 0.3:
+            name = "_".join(parts) + "." + rng.choice(["alt", "sc", "001", "a.b"])
+        elif r_ < 0.45:
+            # the suffix starts at the FIRST period of the whole name: everything after it - further components included - is dropped
+            k_ = rng.randrange(len(parts))
+            parts[k_] += "." + rng.choice(["alt", "sc", "x_" + rng.choice(names), "1"])
+            name = "_".join(parts)
+        else:
+            name = "_".join(parts)
         distinct.add(name)
         evals += 1
         want = agl_model(name, agl)
